@@ -21,16 +21,18 @@ vlib.standard_check({
     "exe": "gv_c15",
     "harness": "c15",
     # [ncases, eventsPerCase]
-    "streams": {"quick": [[120, 1500], [400, 150]], "thorough": [[3000, 4000], [400, 30000], [20000, 200]]},
-    "search": [[1500, 2000], [6000, 300]],
+    "streams": {"quick": [[300, 2000], [1500, 150], [300, 500, "stream"]],
+                "thorough": [[2500, 4000], [300, 30000], [15000, 200], [4000, 1000, "stream"]]},
+    "search": [[1500, 2000], [6000, 300], [2000, 600, "stream"]],
     "signature": signature,
     "eval_key": "ops",
-    "nontrivial": lambda t: sum(t.get("cov", {}).get(k, 0) for k in ("accepted", "yielded", "push_attempt_at_capacity", "pop_attempt_at_none")),
+    "nontrivial": lambda t: sum(t.get("cov", {}).get(k, 0) for k in ("accepted", "yielded", "push_attempt_at_capacity", "pop_attempt_at_none",
+                                                                     "stream_accepted", "stream_yielded", "stream_backpressure_at_capacity")),
     "extra_cov": lambda t: {"boundary_coverage": t.get("cov", {}), "configurations": t.get("hist", {})},
     "rule": "configurations: depth 2^k (k=0..6, minDepth in (2^(k-1),2^k]), payload width in {1..64}, latency request in {DontCare, Specific 1..7, AtLeast 0..6, AtMost 1..8}, "
             "single clock or dual clock with push:pop frequency ratio from 21 rationals (1:16 .. 16:1, 100:133 ...); schedules switch between random / burst-to-full / drain-to-empty / "
             "push+pop simultaneously / polite / push-heavy / pop-heavy / idle phases long enough to sit at both boundaries and wrap the pointers; payload = running counter, "
-            "sometimes random or partly undefined; almost-full/-empty levels constant or varying per edge. evaluations = clock-edge events replayed on model AND checked against the queue spec; "
+            "sometimes random or partly undefined; almost-full/-empty levels constant or varying per edge. A third stream drives scl::strm::fifo (ready/valid, latency 0 = fall-through .. 4) with protocol-conforming sources. evaluations = clock-edge events replayed on model AND checked against the queue spec; "
             "non-trivial = accepted + yielded items + refused attempts at capacity / at none",
     "trusted_base": ["Lean 4.33 kernel", "axioms: propext, Classical.choice, Quot.sound only (audited per theorem)",
                      "statements in Properties/C15.lean and the trace-level definitions accepted/yielded/fill/queue/lastAf/lastAe (C15/Spec.lean)",
@@ -41,8 +43,9 @@ vlib.standard_check({
                   "(single clock; dual clock with arbitrary interleaving of the clock edges; and any adversarial stale-observation sequence): occupancy bounds, refinement to a List queue, "
                   "no accept at capacity, no yield at none, peek = queue head, almost flags not optimistic, liveness within lw-1 pop edges. The model is tied to the real scl::Fifo by "
                   "differential simulation (every interface value before every clock edge) and the queue specification is evaluated directly on the implementation's trace.",
-    "assumptions": ["vendor FIFO primitives (scl/arch/xilinx/FifoPattern.cpp) and technology-mapped memories are outside the model (no target device is set in the harness)",
-                    "TransactionalFifo, FifoArray and stream FIFO wrappers are not covered",
+    "assumptions": ["strm::fifo (ready/valid wrapper incl. fall-through, streamFifo.h) is modelled and checked by correspondence + queue spec on its trace only; the theorems are about the inner Fifo",
+                    "vendor FIFO primitives (scl/arch/xilinx/FifoPattern.cpp) and technology-mapped memories are outside the model (no target device is set in the harness)",
+                    "TransactionalFifo (commit/rollback), FifoArray and storeForwardFifo are not covered",
                     "requested latency 0 (Specific(0)/AtMost(0)) is excluded: Fifo::generate then loops over Range(0-1) registers",
                     "requests are held low while a reset is asserted; metastability is outside gatery's simulator and outside the model"],
 })
